@@ -59,6 +59,7 @@ partial def showObj : Obj → String
   | .fn _ => "#<fn>"
   | .mutex _ => "#<mutex>"
   | .cond cls => "#<" ++ cls ++ ">"
+  | .stream _ => "#<file-stream>"
 where
   showTail : Obj → String
     | .nil => ""
